@@ -48,17 +48,36 @@ Definition prog_after (p : progress) (t : list ev) : progress := fold_left advan
 Lemma prog_after_app p a b : prog_after p (a ++ b) = prog_after (prog_after p a) b.
 Proof. unfold prog_after. apply fold_left_app. Qed.
 
-Lemma advance_not_back p e : p <> NoOk -> advance p e <> NoOk.
+(* a received line that is not REJECTED; everything that is not a received line *)
+Definition keeps (e : ev) : Prop :=
+  match e with Rx l => str_eqb (word l) w_REJECTED = false | _ => True end.
+
+(* REJECTED takes the progress back to nothing ... *)
+Lemma advance_rejected p l : str_eqb (word l) w_REJECTED = true -> advance p (Rx l) = NoOk.
+Proof. intros W. cbn [advance]. rewrite W. reflexivity. Qed.
+
+(* ... and nothing else does: between REJECTED lines the progress never goes back
+   (was: [advance_not_back p e : p <> NoOk -> advance p e <> NoOk], for every e,
+   when [advance] was monotone) *)
+Lemma advance_not_back p e : keeps e -> p <> NoOk -> advance p e <> NoOk.
 Proof.
-  intros H. destruct e; cbn [advance]; try exact H.
+  intros K H. destruct e; cbn [advance]; try exact H.
+  cbn [keeps] in K. rewrite K.
   destruct p; [congruence| |discriminate].
   destruct (fd_answer_line l); discriminate.
 Qed.
 
-Lemma prog_after_not_back t : forall p, p <> NoOk -> prog_after p t <> NoOk.
+Lemma prog_after_not_back t : forall p, Forall keeps t -> p <> NoOk -> prog_after p t <> NoOk.
 Proof.
-  induction t as [|e t IH]; intros p H; [exact H|].
-  cbn [prog_after fold_left]. apply IH. apply advance_not_back; exact H.
+  induction t as [|e t IH]; intros p K H; [exact H|].
+  inversion K as [|e' t' Ke Kt]; subst.
+  cbn [prog_after fold_left]. apply IH; [exact Kt|]. apply advance_not_back; assumption.
+Qed.
+
+Lemma ok_line_not_rejected l : ok_line l = true -> str_eqb (word l) w_REJECTED = false.
+Proof.
+  unfold ok_line. intros H. apply andb_true_iff in H as [W _]. apply str_eqb_spec in W.
+  rewrite W. reflexivity.
 Qed.
 
 Lemma begin_safe_from_app unix t1 : forall p b t2,
@@ -79,27 +98,40 @@ Proof.
     + rewrite IH. rewrite andb_assoc. reflexivity.
 Qed.
 
-(* how far the server's side has got, read back from the trace *)
+(* how far the server's side has got, read back from the trace: the OK, no
+   REJECTED after it, and (for Answered) the answer after it *)
 Lemma progress_witness t :
   prog_after NoOk t <> NoOk ->
   exists p1 l p2, t = p1 ++ Rx l :: p2 /\ ok_line l = true /\
+    (forall r, In (Rx r) p2 -> str_eqb (word r) w_REJECTED = false) /\
     (prog_after NoOk t = Answered -> exists l', In (Rx l') p2 /\ fd_answer_line l' = true).
 Proof.
   induction t as [|e t IH] using rev_ind; [cbn; congruence|].
   rewrite prog_after_app. cbn [prog_after fold_left].
   change (fold_left advance t NoOk) with (prog_after NoOk t).
+  assert (KE : advance (prog_after NoOk t) e <> NoOk -> keeps e).
+  { destruct e as [l|l|r| |]; cbn [keeps]; auto. intros H.
+    destruct (str_eqb (word l) w_REJECTED) eqn:W; [|reflexivity].
+    rewrite (advance_rejected _ l W) in H. congruence. }
   destruct (prog_after NoOk t) eqn:P.
   - (* the OK arrives now *)
     intros H. destruct e as [l|l|r| |]; cbn [advance] in H |- *; try congruence.
+    destruct (str_eqb (word l) w_REJECTED); [congruence|].
     destruct (ok_line l) eqn:O; [|congruence].
-    exists t, l, []. split; [reflexivity|]. split; [exact O|]. discriminate.
-  - intros _. destruct IH as (p1 & l & p2 & -> & O & _); [discriminate|].
+    exists t, l, []. split; [reflexivity|]. split; [exact O|].
+    split; [intros r []|]. discriminate.
+  - intros H. specialize (KE H). destruct IH as (p1 & l & p2 & -> & O & NR & _); [discriminate|].
     exists p1, l, (p2 ++ [e]). rewrite <- app_assoc. split; [reflexivity|]. split; [exact O|].
+    split.
+    { intros r I. apply in_app_or in I as [I|[E|[]]]; [apply NR, I | subst e; exact KE]. }
     destruct e as [l'|l'|r| |]; cbn [advance]; try discriminate.
+    cbn [keeps] in KE. rewrite KE.
     destruct (fd_answer_line l') eqn:F; [|discriminate].
     intros _. exists l'. split; [apply in_or_app; right; left; reflexivity | exact F].
-  - intros _. destruct IH as (p1 & l & p2 & -> & O & A); [discriminate|].
+  - intros H. specialize (KE H). destruct IH as (p1 & l & p2 & -> & O & NR & A); [discriminate|].
     exists p1, l, (p2 ++ [e]). rewrite <- app_assoc. split; [reflexivity|]. split; [exact O|].
+    split.
+    { intros r I. apply in_app_or in I as [I|[E|[]]]; [apply NR, I | subst e; exact KE]. }
     intros _. destruct (A eq_refl) as (l' & I & F).
     exists l'. split; [apply in_or_app; left; exact I | exact F].
 Qed.
@@ -108,19 +140,21 @@ Lemma tx_begin_is l : is_tx w_BEGIN (Tx l) = str_eqb l w_BEGIN.
 Proof. reflexivity. Qed.
 
 (* the reading of [begin_safe]: whenever BEGIN is in the trace, an OK with a valid
-   GUID was received before it, and on a UNIX transport an answer to the descriptor
+   GUID was received before it and STANDS (no REJECTED line was received between
+   that OK and the BEGIN), and on a UNIX transport an answer to the descriptor
    negotiation was received between the two *)
 Lemma begin_safe_meaning unix t pre post :
   begin_safe unix t = true -> t = pre ++ Tx w_BEGIN :: post ->
   exists p1 l p2, pre = p1 ++ Rx l :: p2 /\ ok_line l = true /\
+    (forall r, In (Rx r) p2 -> str_eqb (word r) w_REJECTED = false) /\
     (unix = true -> exists l', In (Rx l') p2 /\ fd_answer_line l' = true).
 Proof.
   intros S ->. unfold begin_safe in S. rewrite begin_safe_from_app in S.
   apply andb_true_iff in S as [_ S]. cbn [begin_safe_from] in S.
   rewrite str_eqb_refl in S. apply andb_true_iff in S as [M _].
   assert (N : prog_after NoOk pre <> NoOk) by (intros E; rewrite E in M; discriminate).
-  destruct (progress_witness pre N) as (p1 & l & p2 & E & O & A).
-  exists p1, l, p2. split; [exact E|]. split; [exact O|].
+  destruct (progress_witness pre N) as (p1 & l & p2 & E & O & NR & A).
+  exists p1, l, p2. split; [exact E|]. split; [exact O|]. split; [exact NR|].
   intros U. subst unix. apply A. destruct (prog_after NoOk pre); [discriminate|discriminate|reflexivity].
 Qed.
 
